@@ -93,6 +93,10 @@ def fromSecs (x : Int) : Option DT :=
     some ⟨y.toNat, m.toNat, d.toNat, (r / 3600).toNat, (r % 3600 / 60).toNat, (r % 60).toNat⟩
   else none
 
+/-- `_set_element_datetime` on a datetime that carries a UTC offset of `offMin` minutes: the equivalent UTC time is
+    written (`value.astimezone(timezone.utc)`); `none` = that time lies outside `datetime`'s year range (`ValueError`) -/
+def writeAware (t : DT) (offMin : Int) : Option Str := (fromSecs (toSecs t - offMin * 60)).map fmt
+
 /-- `_offset_dt`: `[+-]dd:dd`; a `+` offset is SUBTRACTED to get UTC -/
 def parseOffset (o : Str) : Option Int :=
   match o with
